@@ -71,12 +71,17 @@ func (f *indexRespFilter) validate() (err error) {
 
 // indexData is the data of a single item in the filtering-rule index response.
 type indexData struct {
+	// url is the URL of the filter.  It is nil if the item has a valid ID but
+	// an invalid URL.
 	url *url.URL
-	id  filter.ID
+
+	id filter.ID
 }
 
 // toInternal converts the filters from the index to []*indexData.  All errors
-// are logged and collected.  logger and errColl must not be nil.
+// are logged and collected.  Filters with a valid ID but an invalid URL are
+// returned with a nil URL, so that their previous versions can still be used.
+// logger and errColl must not be nil.
 func (r *indexResp) toInternal(
 	ctx context.Context,
 	logger *slog.Logger,
@@ -89,24 +94,43 @@ func (r *indexResp) toInternal(
 			err = fmt.Errorf("validating filter at index %d: %w", i, err)
 			errcoll.Collect(ctx, errColl, logger, "index response", err)
 
+			if id, ok := rf.validID(); ok {
+				fls = append(fls, &indexData{id: id})
+			}
+
 			continue
 		}
+
+		// Use a simple conversion, since [*indexRespFilter.validate] has
+		// already made sure that the ID is valid.
+		id := filter.ID(rf.Key)
 
 		u, err := agdhttp.ParseHTTPURL(rf.DownloadURL)
 		if err != nil {
 			err = fmt.Errorf("validating url: %w", err)
 			errcoll.Collect(ctx, errColl, logger, "index response", err)
 
+			fls = append(fls, &indexData{id: id})
+
 			continue
 		}
 
 		fls = append(fls, &indexData{
 			url: u,
-			// Use a simple conversion, since [*indexRespFilter.validate] has
-			// already made sure that the ID is valid.
-			id: filter.ID(rf.Key),
+			id:  id,
 		})
 	}
 
 	return fls
+}
+
+// validID returns the ID of f, if f is not nil and has a valid one.
+func (f *indexRespFilter) validID() (id filter.ID, ok bool) {
+	if f == nil {
+		return filter.IDNone, false
+	}
+
+	id, err := filter.NewID(f.Key)
+
+	return id, err == nil
 }
